@@ -168,7 +168,7 @@ public:
     void rollback(std::size_t iteration) override
     {
         Checkpoint::rollback(iteration);
-        generators_.erase(generators_.begin() + iteration, generators_.end());
+        generators_.erase(generators_.begin() + iteration + 1, generators_.end());
     }
 
     void serialize(std::ostream& out) const override
